@@ -131,6 +131,19 @@ def generate(rng, tier):
         trail = gen.rand_bytes(rng, rng.choice([0, 0, 3]))
         cases.append(Case(f"md {node.text()}" + (f" {trail.hex()}" if trail else ""), oracle=md_oracle(node, len(trail)),
                           tags=("md", f"depth{min(node.depth(), 9)}", "encodable" if node.encodable() else "unencodable")))
+    # many minimal entries (empty or one-byte names, empty values: 2-3 bytes each) — the densest legal encoding,
+    # alone in the buffer and below a parent, with and without trailing bytes
+    for _ in range(120 if thorough else 40):
+        k = rng.choice([1, 2, 3, 8, 64, 128, 200, 257])
+        names = [b""] + [bytes([i]) for i in range(256)]
+        rng.shuffle(names)
+        entries = {nm: (b"" if rng.random() < 0.9 else gen.rand_bytes(rng, 1)) for nm in names[:k]}
+        node = Node(entries, {})
+        if rng.random() < 0.4:
+            node = Node({}, {b"s": node}) if rng.random() < 0.5 else Node({b"a": b""}, {b"": node, b"t": Node({}, {})})
+        trail = gen.rand_bytes(rng, rng.choice([0, 0, 0, 3]))
+        cases.append(Case(f"md {node.text()}" + (f" {trail.hex()}" if trail else ""), oracle=md_oracle(node, len(trail)),
+                          tags=("md", "gen:dense-minimal-entries", f"depth{min(node.depth(), 9)}", "encodable" if node.encodable() else "unencodable")))
     # chains across the nesting limit
     for k in ([999, 1000, 1001, 1002, 1003] if thorough else [1000, 1001, 1002]):
         node = chain(k)
